@@ -1,4 +1,8 @@
 use vcore::props;
+
+#[global_allocator]
+static GLOBAL: vcore::alloc::Counting = vcore::alloc::Counting;
+
 use vcore::runner::{infra, install_panic_hook, Check};
 
 fn main() {
@@ -18,11 +22,16 @@ fn main() {
     let id = args[0].to_uppercase();
     let mut i = 1;
     let mut replay = None;
+    let mut child_limit: Option<usize> = None;
     while i < args.len() {
         match args[i].as_str() {
             "--tier" => {
                 // SAFETY: single-threaded at this point
                 unsafe { std::env::set_var("VERIF_TIER", &args[i + 1]) };
+                i += 2;
+            }
+            "--child" => {
+                child_limit = args[i + 1].parse().ok();
                 i += 2;
             }
             "--replay" => {
@@ -47,6 +56,10 @@ fn main() {
         "C02" => props::c02::run(chk),
         "C03" => props::c03::run(chk),
         "C04" => props::c04::run(chk),
+        "C05" => match child_limit {
+            Some(l) => props::c05::run_child(chk, l),
+            None => props::c05::run(chk),
+        },
         "C06" => props::c06::run(chk),
         "C07" => props::c07::run(chk),
         "C08" => props::c08::run(chk),
